@@ -27,7 +27,7 @@ SPEC_DIR = os.path.join(vlib.SPEC, "sdl")
 TIERS = {
     # module, cfg, J1 timeout, perms proc1, calls proc1, perms proc2, calls proc2, docs per J3 chunk
     "quick": dict(module="MCSdlQuick", cfg="MC_quick.cfg", j1_timeout=600, p1=3, c1=2, p2=2, c2=1, chunk=150),
-    "thorough": dict(module="MCSdlThorough", cfg="MC_thorough.cfg", j1_timeout=3000, p1=4, c1=2, p2=3, c2=2, chunk=1000),
+    "thorough": dict(module="MCSdlThorough", cfg="MC_thorough.cfg", j1_timeout=3000, p1=4, c1=2, p2=3, c2=1, chunk=1000),
     "replay": dict(module="MCSdlTiny", cfg="MC_tiny.cfg", j1_timeout=600, p1=4, c1=2, p2=3, c2=2, chunk=250),
 }
 
@@ -261,11 +261,21 @@ def run(pid, tier, seed, replay):
     vlib.tlc_require_ok(r, "J1 %s" % cfg["cfg"])
     vlib.log("[C18] J1 %s: %d states (%d generated), depth %d, %.1fs; negative controls: %s" % (
         cfg["cfg"], r.distinct, r.generated, r.depth, r.wall_s, neg))
-    docs_path = os.path.join(r.dir, "docs.ndjson")
     if replay:
         docs_path = os.path.join(replay, "docs.ndjson") if os.path.isdir(replay) else replay
-    if not os.path.exists(docs_path):
-        raise vlib.Inconclusive("no documents to replay at %s" % docs_path)
+        if not os.path.exists(docs_path):
+            raise vlib.Inconclusive("no documents to replay at %s" % docs_path)
+    else:
+        # TLC wrote one file per slice (MCSdl!ExportDocs): concatenate in slice order
+        parts = sorted(f for f in os.listdir(r.dir) if f.startswith("docs_") and f.endswith(".ndjson"))
+        if not parts:
+            raise vlib.Inconclusive("J1 exported no documents")
+        docs_path = os.path.join(work, "docs.ndjson")
+        with open(docs_path, "w") as out:
+            for f in parts:
+                for ln in open(os.path.join(r.dir, f)):
+                    if ln.strip():
+                        out.write(ln if ln.endswith("\n") else ln + "\n")
 
     # ---- J2
     yaml_dir = None
